@@ -459,6 +459,10 @@ def step (quiet : Bool) (ss : Slots) (line : String) : Slots × List String :=
       | some sl => let ss := setSlot ss s sl; (ss, "R ok" :: dumpQ quiet s sl)
       | none => (ss, [bad])
     | _, _ => (ss, [bad])
+  | "findsource" :: ds =>
+    match natList (ds.filter (· != "-")) with
+    | some d => (ss, ["R " ++ showRes (fun v => "ok source: " ++ toString v) (findSourceVertex d)])
+    | none => (ss, [bad])
   | ["swapbytes", kind, tok] =>
     -- io::swapBytes on a value of the label type: the little-endian encoding reversed; this host is little-endian
     match binCodec kind, int? tok with
